@@ -8,8 +8,9 @@ Leg S2C : TLC -simulate behaviours (configuration + call order) are executed on 
           (distinct JSON documents, multi-byte text, with / without action-and-meta-data lines), real offset tables are built
           by loader.DocumentSetPreparator.create_file_offset_table, a real Track / Task / BulkIndexParamSource per group is
           created through loader.operation_parameters, partition() is called per co-located client by the real
-          driver.schedule_for and params() through ScheduleHandle in the order of the TLC behaviour; bodies are lexed back
-          into (file, document) ids.  Every state of the seek model becomes a real file + offset table for io.skip_lines.
+          driver.schedule_for and params() through ScheduleHandle in the order of the TLC behaviour; every parameter dict is sent
+          through the real runner.BulkIndex to a stand-in _bulk endpoint and the received bodies are lexed back into
+          (file, document) ids.  Every state of the seek model becomes a real file + offset table for io.skip_lines.
           The groups of the "alloc" cases are what the REAL Allocator + calculate_worker_assignments put on one worker in
           one allocation column (over-committed parallel elements, several hosts).
 Leg C2S : every recorded execution (also seeded random wider ones, files with > 50 000 lines so that
@@ -132,11 +133,11 @@ def lex_body(body, size, fs, conflict):
             toks.append(("A", a, o[a].get("_index"), o[a].get("_id"), raw))
         elif "f" in o and "d" in o:
             f, d = o["f"], o["d"]
-            ok = isinstance(f, int) and isinstance(d, int) and 1 <= f <= len(fs.files) and 0 <= d < fs.files[f - 1]["docs"] and fs.doc_bytes(f, d) == raw
+            ok = isinstance(f, int) and isinstance(d, int) and 1 <= f <= len(fs.files) and 0 <= d < fs.files[f - 1]["docs"] and fs.doc_bytes(f, d).strip() == ln.strip()
             toks.append(("D", f, d) if ok else ("J",))
         elif list(o) == ["doc"] and isinstance(o["doc"], dict) and "f" in o["doc"] and "d" in o["doc"]:
             f, d = o["doc"]["f"], o["doc"]["d"]
-            ok = isinstance(f, int) and isinstance(d, int) and 1 <= f <= len(fs.files) and 0 <= d < fs.files[f - 1]["docs"] and raw == b'{"doc":%s}\n' % fs.doc_bytes(f, d).strip()
+            ok = isinstance(f, int) and isinstance(d, int) and 1 <= f <= len(fs.files) and 0 <= d < fs.files[f - 1]["docs"] and ln.strip() == b'{"doc":%s}' % fs.doc_bytes(f, d).strip()
             toks.append(("U", f, d) if ok else ("J",))
         else:
             toks.append(("J",))
@@ -149,7 +150,7 @@ def lex_body(body, size, fs, conflict):
             kind, f, d = toks[i + 1]
             _, action, index, did, raw = t
             if fs.files[f - 1]["meta"]:
-                good = kind == "D" and raw == fs.meta_bytes(f, d)
+                good = kind == "D" and raw.strip() == fs.meta_bytes(f, d).strip()
             elif conflict:
                 good = index == "idx%d" % f and isinstance(did, str) and _ID.match(did) is not None and ((action == "index" and kind == "D") or (action == "update" and kind == "U"))
                 if good:
@@ -264,14 +265,48 @@ def real_offsets(fs, n):
     return off
 
 
+class _BulkEndpoint:
+    """Stands in for the Elasticsearch client of the real `bulk` runner: keeps the body that reaches the _bulk endpoint."""
+
+    def __init__(self):
+        self.body = None
+
+    def return_raw_response(self):
+        pass
+
+    async def bulk(self, **kw):
+        import io as pyio
+
+        self.body = kw.get("body", kw.get("operations"))
+        return pyio.BytesIO(b'{"took":1,"errors":false}')
+
+
+_LOOP = [None]
+
+
 def _call(handle):
-    """One params() call the way AsyncExecutor does it. Returns ('bulk', params) | ('stop', None) | ('crash', text)."""
+    """One params() call the way AsyncExecutor does it, and the parameters sent through the real BulkIndex runner.
+    Returns ('bulk', body received by the endpoint, weight reported by the runner) | ('stop', ..) | ('crash', text, None)."""
+    import asyncio
+
+    from esrally.driver import runner
+
     try:
-        return "bulk", handle.params_with_operation_type()
+        p = handle.params_with_operation_type()
     except StopIteration:
-        return "stop", None
+        return "stop", None, None
     except Exception as ex:  # pylint: disable=broad-except
-        return "crash", "%s: %s" % (type(ex).__name__, ex)
+        return "crash", "%s: %s" % (type(ex).__name__, ex), None
+    if _LOOP[0] is None:
+        _LOOP[0] = asyncio.new_event_loop()
+    es = _BulkEndpoint()
+    try:
+        meta = _LOOP[0].run_until_complete(runner.BulkIndex()(es, p))
+    except Exception as ex:  # pylint: disable=broad-except
+        return "crash", "bulk runner: %s: %s" % (type(ex).__name__, ex), None
+    if not isinstance(es.body, (bytes, bytearray)):
+        raise tlc.MachineryError("the bulk runner did not hand a bytes body to es.bulk(): %r" % type(es.body))
+    return "bulk", bytes(es.body), meta.get("weight")
 
 
 def execute(case, root):
@@ -297,12 +332,12 @@ def execute(case, root):
     for g in groups:
         seq = []
         while len(seq) <= cap:
-            kind, p = _call(handles[g[0]])
+            kind, body, weight = _call(handles[g[0]])
             if kind != "bulk":
                 if kind == "crash":
-                    item["crash"] = p
+                    item["crash"] = body
                 break
-            seq.append(lex_body(p.get("body", b""), p.get("bulk-size"), fs, conflict)["runs"])
+            seq.append(lex_body(body, weight, fs, conflict)["runs"])
         full.append(seq)
     item["full"] = full
     # the run itself
@@ -316,14 +351,14 @@ def execute(case, root):
     cap = sum(len(s) for s in full) + cfg["N"] + 8
 
     def call(c):
-        kind, p = _call(handles[c])
+        kind, body, weight = _call(handles[c])
         if kind == "bulk":
-            events.append({"g": gidx[c], "c": c, "stop": False, "b": lex_body(p.get("body", b""), p.get("bulk-size"), fs, conflict)})
+            events.append({"g": gidx[c], "c": c, "stop": False, "b": lex_body(body, weight, fs, conflict)})
         elif kind == "stop":
             stopped.add(c)
             events.append({"g": gidx[c], "c": c, "stop": True, "b": NO_BULK})
         else:
-            item["crash"] = p
+            item["crash"] = body
             stopped.update(handles)
 
     for _g, c in order:
@@ -426,7 +461,7 @@ def bounds_item(tid, total, n, meta, ranges):
     for a, b in ranges:
         o, d, ln = params.bounds(total, a, b, n, meta)
         grp.append({"a": a, "b": b, "s": _limbs(o), "n": _limbs(d), "ln": _limbs(ln)})
-    return {"id": tid, "kind": "bnd", "N": n, "lpd": 2 if meta else 1, "total": _limbs(total), "per": per, "grp": grp, "small": total < BASE and total * n * 4 < 2**31, "case": {"total": str(total), "N": n, "meta": meta, "ranges": ranges}}
+    return {"id": tid, "kind": "bnd", "N": n, "lpd": 2 if meta else 1, "total": _limbs(total), "per": per, "grp": grp, "small": 2 * total < BASE and total * n * 4 < 2**31, "case": {"total": str(total), "N": n, "meta": meta, "ranges": ranges}}
 
 
 def bounds_items(seed, count, prefix):
@@ -579,6 +614,48 @@ def alloc_cases(seed, n):
     return cases
 
 
+def alloc_enumeration(quick):
+    """Every schedule shape within the bounds through the real Allocator + calculate_worker_assignments: the distinct splits
+    of the bulk task's clients into (worker, column) groups, each with one schedule that produces it."""
+    splits = {}
+    n = 0
+    maxn = 6 if quick else 8
+    host_sets = [[{"host": "h", "cores": k}] for k in (1, 2, 3)] + [[{"host": "a", "cores": 2}, {"host": "b", "cores": 2}]]
+    if not quick:
+        host_sets += [[{"host": "h", "cores": 5}], [{"host": "a", "cores": 1}, {"host": "b", "cores": 3}, {"host": "c", "cores": 2}]]
+    for N in range(1, maxn + 1):
+        for pre in (0, 1, 2, 3, 5) if quick else (0, 1, 2, 3, 5, 6, 8):
+            for post in (0, 1, 3):
+                total = pre + N + post
+                for cap in range(0, total + 1):
+                    for lead in (0, 4):
+                        for hosts in host_sets:
+                            case = {"sched": {"pre": pre, "N": N, "post": post, "cap": cap, "lead": lead, "hosts": hosts}, "cfg": {"N": N}, "shuffle": n}
+                            resolve_alloc_case(case)
+                            n += 1
+                            splits.setdefault((N, tuple(tuple(g) for g in case["cfg"]["groups"])), case["sched"])
+    return n, splits
+
+
+def enumerated_alloc_cases(splits, seed):
+    rnd = random.Random(seed)
+    cases = []
+    for k, ((N, _groups), sched) in enumerate(sorted(splits.items(), key=lambda kv: repr(kv[0]))):
+        files = [{"corpus": 1, "docs": rnd.choice([5, 7, 9, 12]), "meta": rnd.random() < 0.3}, {"corpus": rnd.choice([1, 2]), "docs": rnd.choice([1, 3, 6]), "meta": rnd.random() < 0.3}]
+        cases.append(
+            {
+                "src": "real-allocator",
+                "files": files,
+                "sched": sched,
+                "cfg": {"N": N, "groups": None, "bulk": rnd.randint(1, 3), "mult": rnd.choice([1, 2]), "num": 1, "den": rnd.choice([1, 1, 1, 2]), "conflict": "none", "onc": "index"},
+                "order": [],
+                "shuffle": rnd.randrange(10**6),
+                "seed": seed * 1000 + k,
+            }
+        )
+    return cases
+
+
 def resolve_alloc_case(case):
     """Fills cfg.groups / order from the real Allocator and calculate_worker_assignments; installs a factory for the real
     TaskAllocation objects (rebuilt per task object because Allocator needs the very task)."""
@@ -673,7 +750,7 @@ def judge(items, index, out, name, chunk=400):
     for tid, fails in verdicts.l1.items():
         case = index[tid]
         clauses = sorted({c for _, cl in fails for c in cl})
-        kind = case.get("kind", "run")
+        kind = case.get("_sigkind", case.get("kind", "run"))
         out.violations.append(Violation(",".join(clauses), _public(case), signature=_signature(kind, clauses, case), detail="item %s first failing step %d" % (tid, fails[0][0])))
     for tid, lines in verdicts.l2.items():
         if tid not in verdicts.l1:
@@ -702,7 +779,7 @@ def run_cases(cases, out, label, root):
                 pat, n = fs.pattern(f)
                 targets = sorted({t for t in (0, 1, 2, STRIDE - 1, STRIDE, STRIDE + 1, 2 * STRIDE - 1, 2 * STRIDE, 2 * STRIDE + 1, n - 1, n, n // 2) + tuple(o * (2 if fs.files[f - 1]["meta"] else 1) for o in it["off"][f - 1]) if 0 <= t <= n})
                 for s in seek_items(fs.paths[f - 1], pat, n, STRIDE, targets, "%s-f%d" % (case["id"], f)):
-                    index[s["id"]] = {"kind": "seek", "src": "big-files", "file": fs.files[f - 1], "big": True, "l": s["l"]}
+                    index[s["id"]] = dict(case, _sigkind="seek")  # replayed through the run case that owns the files
                     items.append(s)
         nb = sum(1 for e in it["events"] if not e["stop"])
         out.add_case({k: v for k, v in _public(case).items() if k not in ("seed", "shuffle")}, nontrivial=nb >= 2)
@@ -770,10 +847,17 @@ def run(ctx, out):
     items = run_cases(sim, out, "sim", root)
     ex = next((it for it in items if it["kind"] == "run" and len(it["events"]) > 3), items[0])
     out.sample({"source": "tlc-simulate", "files": ex["files"], "cfg": ex["cfg"], "offsets": ex["off"], "events": ex["events"][:4]})
-    al = alloc_cases(ctx.seed + 5, 60 if quick else 800)
+    n_sched, splits = alloc_enumeration(quick)
+    al = enumerated_alloc_cases(splits, ctx.seed + 4) + alloc_cases(ctx.seed + 5, 30 if quick else 600)
     items = run_cases(al, out, "alloc", root)
-    noncontig = sum(1 for it in items if _noncontiguous(it["cfg"]["groups"]))
-    out.extra["real_allocator_groups"] = {"cases": len(items), "with_noncontiguous_group": noncontig}
+    out.extra["real_allocator_groups"] = {
+        "schedules_enumerated": n_sched,
+        "distinct_splits": len(splits),
+        "noncontiguous_splits_enumerated": sum(1 for k in splits if _noncontiguous(k[1])),
+        "cases_executed": len(items),
+        "executed_with_noncontiguous_group": sum(1 for it in items if _noncontiguous(it["cfg"]["groups"])),
+    }
+    out.note("real Allocator + calculate_worker_assignments: %d schedules, %d distinct splits of the bulk task's clients, %d non-contiguous" % (n_sched, len(splits), out.extra["real_allocator_groups"]["noncontiguous_splits_enumerated"]))
     out.sample({"source": "real-allocator", "sched": al[0]["sched"], "groups": items[0]["cfg"]["groups"]})
     big = [big_case(s, k, ctx.seed) for k, s in enumerate(BIG_CASES + ([] if quick else BIG_CASES_THOROUGH))]
     items = run_cases(big, out, "big", root)
@@ -796,8 +880,6 @@ def replay(ctx, case):
         it = bounds_item("replay", int(case["total"]), case["N"], case["meta"], case["ranges"])
         judge([it], {"replay": dict(case)}, out, "c03replay")
     else:
-        if case.get("big"):
-            raise tlc.MachineryError("seek cases on big files are replayed through their run case")
         it = seek_small_items(os.path.join(root, "seek"), [{"pat": [p - 1 for p in case["pat"]], "n": case["n"], "K": case["K"], "l": case["l"]}])
         judge(it, {i["id"]: dict(case) for i in it}, out, "c03replay")
     for v in out.violations:
